@@ -91,10 +91,10 @@ def run(run_, ctx):
                 l = oks[0]
                 if "try_take_n(&{self.flav}, %d)" % nb not in l:
                     probs.append("does not take exactly %d checksum bytes" % nb)
-                if not re.search(r"Eq\(#\d+, from_le_bytes::<%s>\(okval\(#\d+\)\)\) == True" % w, l) and \
-                        not re.search(r"Eq\(from_le_bytes::<%s>\(okval\(#\d+\)\), #\d+\) == True" % w, l):
+                if not re.search(r"#\d+ == from_le_bytes::<%s>\(okval\(#\d+\)\)" % w, l) and \
+                        not re.search(r"from_le_bytes::<%s>\(okval\(#\d+\)\) == #\d+" % w, l):
                     probs.append("Ok(remainder) is not guarded by digest == from_le_bytes(checksum bytes)")
-            bad = [l for l in ls if "== False" in l and "from_le_bytes" in l]
+            bad = [l for l in ls if re.search(r"(#\d+ != from_le_bytes|from_le_bytes::<\w+>\(okval\(#\d+\)\) != #\d+)", l)]
             if len(bad) != 1 or "DeserializeBadCrc" not in bad[0]:
                 probs.append("checksum mismatch does not return DeserializeBadCrc")
         else:
